@@ -51,7 +51,7 @@ func (st *State) specCtx(fr *Frame, where string) *SpecCtx {
 	for k, v := range fr.specVars {
 		vars[k] = v
 	}
-	sc := &SpecCtx{st: st, vars: vars, old: fr.old, where: where}
+	sc := &SpecCtx{st: st, vars: vars, old: fr.old, where: where, fn: fr.fn.RelString(st.e.P.TPkg)}
 	// address-taken locals: read their current content
 	for name, p := range fr.specAddrs {
 		if _, ok := vars[name]; !ok {
@@ -289,7 +289,7 @@ func (st *State) modularCall(fr *Frame, in ssa.Instruction, fn *ssa.Function, c 
 		vars[p.Name()] = args[i]
 	}
 	pre := st.snapshot()
-	sc := &SpecCtx{st: st, vars: vars, old: pre, where: "call of " + name}
+	sc := &SpecCtx{st: st, vars: vars, old: pre, where: "call of " + name, fn: name}
 	st.evalLets(sc, c)
 	for i, r := range c.Requires {
 		label := r.Label
@@ -343,7 +343,7 @@ func (st *State) modularCall(fr *Frame, in ssa.Instruction, fn *ssa.Function, c 
 		st.assumeAllocated(r)
 		parts = append(parts, r)
 	}
-	sc2 := &SpecCtx{st: st, vars: vars, old: pre, where: "post of " + name}
+	sc2 := &SpecCtx{st: st, vars: vars, old: pre, where: "post of " + name, fn: name}
 	bindResults(sc2, fn.Signature, parts)
 	st.evalLets(sc2, c)
 	for _, en := range c.Ensures {
